@@ -1562,9 +1562,32 @@
 		v
 	}
 
+	// C16 "... or allocate memory unrelated to the input size": the largest single request the reader makes of the allocator while it reads one input is recorded per thread
+	// (a request that is never touched costs nothing on a machine that overcommits, and aborts the process on one that does not)
+	struct PeakAlloc;
+	thread_local! {
+		static PEAK_ON: std::cell::Cell<bool> = const { std::cell::Cell::new(false) };
+		static PEAK: std::cell::Cell<usize> = const { std::cell::Cell::new(0) };
+	}
+	fn note(size: usize) { let _ = PEAK_ON.try_with(|on| if on.get() { let _ = PEAK.try_with(|p| if size > p.get() { p.set(size) }); }); }
+	unsafe impl std::alloc::GlobalAlloc for PeakAlloc {
+		unsafe fn alloc(&self, l: std::alloc::Layout) -> *mut u8 { note(l.size()); unsafe { std::alloc::System.alloc(l) } }
+		unsafe fn alloc_zeroed(&self, l: std::alloc::Layout) -> *mut u8 { note(l.size()); unsafe { std::alloc::System.alloc_zeroed(l) } }
+		unsafe fn realloc(&self, p: *mut u8, l: std::alloc::Layout, n: usize) -> *mut u8 { note(n); unsafe { std::alloc::System.realloc(p, l, n) } }
+		unsafe fn dealloc(&self, p: *mut u8, l: std::alloc::Layout) { unsafe { std::alloc::System.dealloc(p, l) } }
+	}
+	#[global_allocator]
+	static PEAK_ALLOC: PeakAlloc = PeakAlloc;
+	/// what one request may ask for: 64 MiB (every count field of the format is a u2: 65535 entries of a few hundred bytes) plus 64 bytes per byte of input
+	fn allowance(input_len: usize) -> usize { (64 << 20) + 64 * input_len }
 	fn check_damaged(t: &mut Tally, what: &str, b: &[u8]) {
 		t.at(what.as_bytes());
-		match guarded(|| read_class(&mut Cursor::new(b))) {
+		PEAK.with(|p| p.set(0)); PEAK_ON.with(|o| o.set(true));
+		let outcome = guarded(|| read_class(&mut Cursor::new(b)));
+		PEAK_ON.with(|o| o.set(false));
+		let peak = PEAK.with(|p| p.get());
+		if peak > allowance(b.len()) { t.fail(if b.len() <= 120 { format!("{what}: bytes[{}]={}", b.len(), hex(b)) } else { s(what) }, &format!("read_class asked the allocator for {peak} bytes at once for an input of {} bytes", b.len())); }
+		match outcome {
 			Err(()) | Ok(None) => { t.case(true); t.fail(if b.len() <= 120 { format!("{what}: bytes[{}]={}", b.len(), hex(b)) } else { s(what) }, "read_class panicked"); },
 			Ok(Some(Err(_))) => t.case(false),
 			Ok(Some(Ok(tree))) => { t.case(true); if let Err(()) | Ok(None) = write_tree(&tree) { t.fail(s(what), "write_class panicked on a tree read_class returned"); } },
